@@ -131,6 +131,10 @@ def handle (toks : List String) : Option String :=
     match (ops.splitOn ";").mapM decDOp with
     | none => some "reject"
     | some l => some (" ".intercalate (showTrace "-" (runD FsTree.empty l)))
+  | ["fsrel", _] =>
+    -- a script of file commands with RELATIVE names (run by a child process inside a private
+    -- directory); the script asserts the property's expectations itself, the answer is `ok`
+    some "ok"
   | ["fspath", "base", s] => (decStr s).map fun x => encOpt (basename x)
   | ["fspath", "dir", s] => (decStr s).map fun x => encOpt (dirname x)
   | ["fspath", "join", l] => (decList l).map fun x => encStr (joinPath x)
